@@ -247,6 +247,21 @@ func Run(args []string) *rep.Report {
 				raw = append(raw, b...)
 			}
 			check(tc, raw, tc.Ok, tc.Out, "raw concatenation")
+		case "crafted":
+			// frame tc.Cut (an HTTP gateway frame) replaced by: the gateway's code, a payload length of 2, two payload bytes --
+			// and by the same with the payload missing
+			for _, tail := range [][]byte{{2, 'x', 'y'}, {1, 'z'}, {2}} {
+				var raw []byte
+				for i, b := range bs {
+					if i == tc.Cut-1 {
+						raw = append(raw, b[:len(b)-1]...)
+						raw = append(raw, tail...)
+					} else {
+						raw = append(raw, b...)
+					}
+				}
+				check(tc, raw, false, nil, fmt.Sprintf("gateway frame %d with length byte and payload % x", tc.Cut, tail))
+			}
 		case "truncated":
 			// locate the model's cut: frame boundary, or inside the k-th frame (then every real offset inside it)
 			pos, k := 0, 0
